@@ -684,8 +684,36 @@ let run_untrusted (payload : string) : string =
       Printf.sprintf "%s req=%s" cls (dec_of_z req)
   | _ -> failwith "bad untrusted payload"
 
+(* wirenum: "<c|j> <kind> <decimal>" *)
+let run_wirenum (payload : string) : string =
+  match split_ws payload with
+  | [fmt; kind; dec] ->
+      let z = Z.of_string dec in
+      let bs : M.z list option =
+        if fmt = "j" then Some (List.map (fun c -> byte_tab.(Char.code c)) (List.init (String.length dec) (String.get dec)))
+        else begin
+          let major, arg = if Z.sign z < 0 then (0x20, Z.pred (Z.neg z)) else (0x00, z) in
+          if Z.numbits arg > 64 then None else begin
+            let be n = List.init n (fun i -> byte_tab.(Z.to_int (Z.logand (Z.shift_right arg (8 * (n - 1 - i))) (Z.of_int 255)))) in
+            Some (if Z.lt arg (Z.of_int 24) then [byte_tab.(major lor Z.to_int arg)]
+                  else if Z.numbits arg <= 8 then byte_tab.(major lor 24) :: be 1
+                  else if Z.numbits arg <= 16 then byte_tab.(major lor 25) :: be 2
+                  else if Z.numbits arg <= 32 then byte_tab.(major lor 26) :: be 4
+                  else byte_tab.(major lor 27) :: be 8)
+          end
+        end in
+      (match bs with
+       | None -> "nowire"
+       | Some bs ->
+           let ty = gtype_of (List.hd (parse_sx kind)) in
+           (match unmarshal_all [] { M.a_entries = []; M.a_mode = M.Z0 } ty fmt bs with
+            | Some x -> "done " ^ print_gval x ^ " " ^ hex_or_dash bs
+            | None -> "err " ^ hex_or_dash bs))
+  | _ -> failwith "bad wirenum payload"
+
 let dispatch (suite : string) (payload : string) : string =
   match suite with
+  | "wirenum" -> run_wirenum payload
   | "untrusted" -> run_untrusted payload
   | "maporder" -> run_maporder payload
   | "remarshal" -> run_remarshal payload
